@@ -65,6 +65,16 @@ def ser_arg(a) -> list:
     raise TypeError(f"unknown argument {type(a)}")
 
 
+def canon_args(args):
+    return None if args is None else [tuple(canon(sexp_roundtrip(ser_arg(a)))) for a in args]
+
+
+def sexp_roundtrip(v):
+    from harness import sexp
+
+    return sexp.loads(sexp.dumps(v))
+
+
 def ser_ginfo(s) -> list:
     gen = getattr(s, "generator", None)
     args = getattr(s, "arguments", None)
